@@ -1,6 +1,7 @@
 (* C16 - the state dump shows the true machine state, completely and parseably.
    Property theorems only; proofs live in DumpProofs.v. *)
-From HclV Require Import Base Expr Disasm DisasmProofs Machine MemSpec DumpSpec DumpProofs.
+From Coq Require Import Permutation.
+From HclV Require Import Base Expr Disasm DisasmProofs Machine MemSpec DumpSpec DumpProofs TableSpec TableProofs.
 Open Scope string_scope.
 Open Scope N_scope.
 
@@ -52,3 +53,30 @@ Example C16_unaligned_first_address_is_labelled :
   "|  0x0000000_:            aa                                            |" ++ nl ++
   "|  0xfffffffffffffff_:                                                    07    |" ++ nl.
 Proof. vm_compute. reflexivity. Qed.
+
+(* ---- every register of every declared register bank (TableSpec.v / TableProofs.v) ----------- *)
+
+(* the register-bank section is the dump of EVERY declared bank, each exactly once: banks of
+   letter P, F, D, E, M, W first, then the other letters in byte order, declaration order kept
+   among banks sharing a letter (proving this for the pinned code failed: a bank sharing its
+   output letter with a later one was missing - repaired, see known_findings.txt) *)
+Theorem C16_every_bank_is_listed_once :
+  forall vals banks text,
+    dump_custom_registers vals banks = Ok text ->
+    exists order, canonical_bank_order banks order /\ Permutation order banks /\
+                  dump_bank_list vals order = Ok text.
+Proof. exact bank_dump_lists_every_bank_ok_holds. Qed.
+Print Assumptions C16_every_bank_is_listed_once.
+
+Theorem C16_bank_section_is_concatenation : stmt_dump_bank_list_concat.
+Proof. exact dump_bank_list_concat_holds. Qed.
+Print Assumptions C16_bank_section_is_concatenation.
+
+Theorem C16_canonical_bank_order_exists_uniquely : stmt_canonical_bank_order_unique.
+Proof. exact canonical_bank_order_unique_holds. Qed.
+Print Assumptions C16_canonical_bank_order_exists_uniquely.
+
+(* the section fails only when some declared bank cannot be dumped *)
+Theorem C16_bank_section_fails_iff : stmt_bank_dump_fails_iff.
+Proof. exact bank_dump_fails_iff_holds. Qed.
+Print Assumptions C16_bank_section_fails_iff.
